@@ -398,6 +398,14 @@ pub fn shrink_with(r: &RunResult, target: &str, exec: &mut dyn FnMut(&RunCfg, &[
             _ => {}
         }
     }
+    // operations after the violating one are irrelevant
+    if best.step + 1 < ops.len() {
+        let cand: Vec<Op> = ops[..=best.step].to_vec();
+        if let Some(v) = test(&cfg, &cand) {
+            ops = cand;
+            best = v;
+        }
+    }
     Some(Shrunk { cfg, ops, violation: best, replays })
 }
 
@@ -669,7 +677,8 @@ pub fn grid_cases(reg: &Registry, prop: Prop, seed: u64) -> Vec<GridCase> {
         for mask in if any_detect { vec![false, true] } else { vec![false] } {
             let mut variants = std::collections::BTreeMap::new();
             variants.insert(f, all.clone());
-            let cfg = RunCfg { variants, mask, tasks: 1 };
+            let ci_strict = (f % 2 == 0) ^ mask;
+            let cfg = RunCfg { variants, mask, tasks: 1, strict_arena: ci_strict };
             for &klen in fam.key_lens.iter() {
                 if prop != Prop::C03 && klen != fam.key_lens[0] && klen != *fam.key_lens.last().unwrap() {
                     continue;
